@@ -100,6 +100,7 @@ def _run_part(prop, part, tier, runs, budget, workers, quiet, seed):
   agg = eng.new_agg(mode)
   next_index = 0
   waves = 0
+  pool = kernel.make_pool(workers)   # one pool for all waves: warm workers
   known = kernel.known_signatures(prop)
 
   def unlisted(vs):
@@ -119,10 +120,18 @@ def _run_part(prop, part, tier, runs, budget, workers, quiet, seed):
       wave.append(eng.chunk_args(seed, mode, tier, next_index, hi,
                                  want_samples=(3 if next_index == 0 else 0)))
       next_index = hi
-    for piece in kernel.pmap(eng.run_chunk, wave, workers=workers,
-                            cap_s=plan.get("cap_s", 900)):
+    try:
+      pieces = kernel.pmap(eng.run_chunk, wave, workers=workers,
+                           cap_s=plan.get("cap_s", 900), pool=pool)
+    except BaseException:
+      if pool is not None:
+        pool.shutdown(wait=False, cancel_futures=True)
+      raise
+    for piece in pieces:
       eng.merge_agg(agg, piece)
     waves += 1
+  if pool is not None:
+    pool.shutdown(wait=True, cancel_futures=True)
   wall = time.time() - t0
   if hasattr(eng, "sanity"):
     eng.sanity(agg)
